@@ -1338,6 +1338,8 @@ class Interp:
             if c is not None:
                 import math
                 return math.floor(c) if nm == 'floor' else math.ceil(c)
+            if isinstance(args[0], Node):
+                return X.fn(nm, args[0])          # an uninterpreted real function of its argument: nothing cancels against it unless it is the same term
             return Opaque(nm)
         if nm in ('isnan', 'isinf', 'isfinite') and args and concrete(args[0]) is not None:
             return nm == 'isfinite'
